@@ -452,11 +452,19 @@ def _c16_ami_parts(fn):
             and len(g.body) == 1 and isinstance(g.body[0], ast.Raise) and isinstance(g.body[0].exc, ast.Call)
             and ast.unparse(g.body[0].exc.func) == 'ValueError'):
         raise TranslationError('the second statement is not `if not (<guard>): raise ValueError(..)`')
-    for s_ in b[2:]:
+    # round 6 (fix 139a98b): directly after the guard the distance may be normalised to a Python int with
+    # `temporal_distance = operator.index(temporal_distance)`.  On the integers the fragments are typed over (Z) this is
+    # the identity (operator.index returns the same integer value for every int-like object and raises TypeError for
+    # everything else, which is outside the typed domain), so the statement is stepped over; any OTHER re-binding of
+    # the name still fails closed.
+    rest = b[2:]
+    if rest and ast.unparse(rest[0]).replace(' ', '') == 'temporal_distance=operator.index(temporal_distance)':
+        rest = rest[1:]
+    for s_ in rest:
         for n in ast.walk(s_):
             if isinstance(n, ast.Name) and n.id == 'temporal_distance' and isinstance(n.ctx, ast.Store):
                 raise TranslationError('temporal_distance is re-bound after the guard')
-    loops = [s_ for s_ in b[2:] if isinstance(s_, ast.For)]
+    loops = [s_ for s_ in rest if isinstance(s_, ast.For)]
     if len(loops) != 1:
         raise TranslationError('not exactly one loop after the guard')
     body = loops[0].body
